@@ -86,19 +86,39 @@ const (
 	c07EvResetSoft
 	c07EvDelete
 	c07EvPfxLimit
-	c07NumEv
+	c07NumEv // size of the enumerated alphabet
+	// events of the scripted multi-session histories only (c07_multi_test.go), never enumerated:
+	// well-formed UPDATEs of exactly 4096, 4097 and 65535 octets (RFC 8654 limits)
+	c07EvUpdate4096
+	c07EvUpdate4097
+	c07EvUpdate65535
 )
 
 var c07EvNames = [...]string{"connect", "open-valid", "open-badversion", "open-badas", "open-id0", "open-idself", "open-hold1", "open-hold2",
 	"open-malformed-optparam", "open-unsup-optparam", "open-truncated", "keepalive", "update", "route-refresh", "notification",
 	"garbage-marker", "garbage-len-short", "garbage-len-long", "garbage-type", "remote-close",
 	"silence-next-below", "silence-next-at", "silence-next-above", "silence-hold-below", "silence-hold-at", "silence-hold-above",
-	"enable", "disable", "shutdown", "reset-hard", "reset-soft", "delete", "prefix-limit"}
+	"enable", "disable", "shutdown", "reset-hard", "reset-soft", "delete", "prefix-limit", "-", "update-4096-octets", "update-4097-octets", "update-65535-octets"}
 
 func (e c07Ev) String() string { return c07EvNames[e] }
 
-func (e c07Ev) isOpen() bool    { return e >= c07EvOpenValid && e <= c07EvOpenTrunc }
-func (e c07Ev) isMsg() bool     { return (e >= c07EvOpenValid && e <= c07EvClose) || e == c07EvPfxLimit }
+func (e c07Ev) isOpen() bool { return e >= c07EvOpenValid && e <= c07EvOpenTrunc }
+func (e c07Ev) isMsg() bool {
+	return (e >= c07EvOpenValid && e <= c07EvClose) || e == c07EvPfxLimit || e > c07NumEv
+}
+
+// bigLen: the header Length of the sized UPDATE events, 0 for every other event.
+func (e c07Ev) bigLen() int {
+	switch e {
+	case c07EvUpdate4096:
+		return 4096
+	case c07EvUpdate4097:
+		return 4097
+	case c07EvUpdate65535:
+		return 65535
+	}
+	return 0
+}
 func (e c07Ev) isSilence() bool { return e >= c07EvSilNextBelow && e <= c07EvSilHoldAbove }
 func (e c07Ev) isGarbage() bool { return e >= c07EvGMarker && e <= c07EvGType }
 
@@ -117,7 +137,8 @@ const (
 type c07Conf struct {
 	ibgp    bool
 	cfgHold int64 // gobgp's configured hold time (s)
-	spkHold int64 // hold time in the speaker's OPEN (s)
+	spkHold int64 // hold time in the speaker's OPEN (s); may change between the sessions of a case
+	spkExt  bool  // the speaker's OPEN carries the Extended Message capability (gobgp always sends it)
 }
 
 func (cf *c07Conf) negotiate() (hold, ka int64) {
@@ -148,6 +169,7 @@ type c07M struct {
 	kaIv     int64 // keepalive interval (s)
 	negHold  int64 // negotiated hold (s)
 	routes   int   // routes of this peer that must be in ADJ_IN and the global table
+	ext      bool  // RFC 8654: both OPENs of THIS session carried the Extended Message capability
 
 	// bookkeeping of recognised deviations
 	stale byte   // an administrative NOTIFICATION (subcode 2 or 4) requested while not Established is still queued
@@ -203,6 +225,7 @@ func (o *c07Out) toIdle(at int64) {
 	m.holdAt, m.kaAt = -1, -1
 	m.routes = 0
 	m.ocOff = false
+	m.ext = false
 	if m.adm == c07Up {
 		m.idleAt = at + m.idleHold*c07Sec
 	} else {
@@ -288,6 +311,7 @@ func (m c07M) enterOpenConfirm(cf *c07Conf, ev c07Ev, extraDev string) []c07Out 
 	o.tr(c07OpenConfirm, t)
 	n := &o.next
 	n.negHold, n.kaIv = cf.negotiate()
+	n.ext = cf.spkExt
 	if n.negHold > 0 {
 		n.holdAt = t + n.negHold*c07Sec
 		n.kaAt = t + n.kaIv*c07Sec
@@ -630,6 +654,19 @@ func (m c07M) msgEstablished(cf *c07Conf, ev c07Ev) []c07Out {
 		rearm(&o)
 		return []c07Out{o}
 	case ev == c07EvUpdate:
+		o := m.base()
+		rearm(&o)
+		o.next.routes = 1
+		return []c07Out{o}
+	case ev.bigLen() > 0:
+		// RFC 4271 6.1 / RFC 8654 4: the limit is 4096 octets unless THIS session negotiated extended messages
+		if l := ev.bigLen(); l > 4096 && !m.ext {
+			n := c07Notif(t, 1, 2)
+			n.data, n.dataMust = c07U16(l), true
+			o := m.base()
+			o.notifyCloseIdle(t, n)
+			return []c07Out{o}
+		}
 		o := m.base()
 		rearm(&o)
 		o.next.routes = 1
